@@ -7,10 +7,12 @@ Three behaviour-preserving spellings are folded into one, so that no rule has to
  (b) a temporary that only carries the returned value:          r = <expr>; return r        ->  return <expr>
  (c) a negated two-armed conditional:                           if not c: A else: B         ->  if c: B else: A
  (d) a spelled-out accumulation:                                x = x + e                   ->  x += e
+ (e) a no-op self assignment x = x is dropped; a top-level copy a = b of a never re-assigned name is read as b
 
 The rewrites keep line numbers (copy_location).  They are analysis-level identities: (a) ignores that a call between
 the alias and its use could rebind the field, which does not matter for the shape questions the rules ask."""
 import ast
+import os
 from typing import Dict, List, Set
 
 
@@ -69,6 +71,55 @@ def _inline_field_aliases(fn) -> bool:
     return changed
 
 
+def _drop_self_assignments(tree) -> bool:
+    """x = x  (a no-op that only makes x look assigned twice)"""
+    changed = False
+    for owner in ast.walk(tree):
+        for fld in ("body", "orelse", "finalbody"):
+            blk = getattr(owner, fld, None)
+            if not isinstance(blk, list):
+                continue
+            for i, st in enumerate(blk):
+                if isinstance(st, ast.Assign) and len(st.targets) == 1 and isinstance(st.targets[0], ast.Name) and isinstance(st.value, ast.Name) and st.value.id == st.targets[0].id:
+                    blk[i] = ast.copy_location(ast.Pass(), st)
+                    changed = True
+    return changed
+
+
+def _propagate_copies(fn) -> bool:
+    """a = b  at the top level of the function body, a stored nowhere else, b a parameter that is never stored or a name stored once
+    at the top level before:  the loads of a are loads of b"""
+    nodes = _own_nodes(fn)
+    if any(isinstance(n, (ast.FunctionDef, ast.AsyncFunctionDef, ast.Lambda, ast.Global, ast.Nonlocal)) for n in nodes):
+        return False
+    stores: Dict[str, int] = {}
+    for n in nodes:
+        if isinstance(n, ast.Name) and isinstance(n.ctx, (ast.Store, ast.Del)):
+            stores[n.id] = stores.get(n.id, 0) + 1
+    params = {a.arg for a in fn.args.posonlyargs + fn.args.args + fn.args.kwonlyargs}
+    top_single: Set[str] = set()
+    changed = False
+    for st in list(fn.body):
+        if isinstance(st, ast.Assign) and len(st.targets) == 1 and isinstance(st.targets[0], ast.Name):
+            a = st.targets[0].id
+            if isinstance(st.value, ast.Name) and stores.get(a, 0) == 1 and a not in params:
+                b = st.value.id
+                if b != a and ((b in params and stores.get(b, 0) == 0) or b in top_single):
+                    class R(ast.NodeTransformer):
+                        def visit_Name(self, n):
+                            if n.id == a and isinstance(n.ctx, ast.Load):
+                                return ast.copy_location(ast.Name(id=b, ctx=ast.Load()), n)
+                            return n
+                    idx = next(k for k, x in enumerate(fn.body) if x is st)
+                    fn.body[idx] = ast.copy_location(ast.Pass(), st)
+                    fn.body = [R().visit(x) for x in fn.body]
+                    changed = True
+                    continue
+            if stores.get(a, 0) == 1 and a not in params:
+                top_single.add(a)
+    return changed
+
+
 def _inline_return_temps(fn) -> bool:
     """T = <expr>; return T  ->  return <expr>   for every name T all of whose stores are such assignments and all of whose
     loads are the returns that follow them"""
@@ -117,6 +168,28 @@ def _unnegate_ifs(tree) -> bool:
     return changed
 
 
+def _desugar_ifexp_statements(tree) -> bool:
+    """x = f() if c else g()  ->  if c: x = f()  else: x = g()     (likewise return / augmented assignment): a choice between two
+    *computations* gets the statement form, in which the flow graph shows which call runs when; a choice between two values
+    (x if j > 0 else 1) stays an expression, which the formula rules read as one definition"""
+    changed = False
+    for owner in ast.walk(tree):
+        for fld in ("body", "orelse", "finalbody"):
+            blk = getattr(owner, fld, None)
+            if not isinstance(blk, list):
+                continue
+            for i, st in enumerate(blk):
+                if isinstance(st, (ast.Assign, ast.Return, ast.AugAssign)) and isinstance(st.value, ast.IfExp) and \
+                        all(any(isinstance(x, ast.Call) for x in ast.walk(arm)) for arm in (st.value.body, st.value.orelse)):
+                    import copy
+                    a, b = copy.copy(st), copy.deepcopy(st)
+                    a.value = st.value.body
+                    b.value = st.value.orelse
+                    blk[i] = ast.copy_location(ast.If(test=st.value.test, body=[a], orelse=[b]), st)
+                    changed = True
+    return changed
+
+
 def _augment(tree) -> bool:
     """x = x + e  ->  x += e   (for + - *; the right operand form only, so that non-commutative meaning is kept)"""
     changed = False
@@ -137,9 +210,16 @@ def _augment(tree) -> bool:
 
 def canonicalise(tree: ast.Module) -> ast.Module:
     changed = _augment(tree)
+    changed |= _drop_self_assignments(tree)
     for fn in _functions(tree):
+        changed |= _propagate_copies(fn)
         changed |= _inline_field_aliases(fn)
         changed |= _inline_return_temps(fn)
+    if os.environ.get("POLARLINT_NO_IFEXP_DESUGAR") != "1":
+        for _ in range(3):            # nested conditional expressions
+            if not _desugar_ifexp_statements(tree):
+                break
+            changed = True
     changed |= _unnegate_ifs(tree)
     if changed:
         ast.fix_missing_locations(tree)
